@@ -441,6 +441,11 @@ pub fn run_case(ctx: &mut Ctx, fam: &str, k: u64, r: &mut Rng) {
                         let b = arr(&[n], &v);
                         if d != vec![n] {
                             expect_panic(ctx, &format!("ragged nest of {:?} and [{}]", d, n), move || Array::from(vec![a, b]));
+                            // ... also when the differently shaped children are views of ONE buffer
+                            let a = arr(&d, &v);
+                            let view = a.reshape(vec![n]);
+                            let c = a.clone();
+                            expect_panic(ctx, &format!("ragged nest of {:?} and its own reshape to [{}]", d, n), move || Array::from(vec![c, view]));
                         }
                     }
                 }
